@@ -352,6 +352,17 @@ Definition extract_fields (O : oracles) (c : config) (st : state) (o : oid) : ou
     (Ok tt, fold_left (fun s ab => set_pdoc s (fst ab) (Some (PMark (snd ab)))) (var_fields_p O pd) st2)
   end.
 
+(* ---- the three rendering entry points under one name (used to state non-interference once) *)
+Inductive opk : Type := OpDocstring | OpSummary | OpToc.
+Inductive opres : Type := RDoc (r : docres) | RSum (s : stan) | RToc (r : outcome (option stan)).
+
+Definition run_opk (O : oracles) (c : config) (st : state) (k : opk) (o : oid) : opres * state :=
+  match k with
+  | OpDocstring => let '(r, st') := format_docstring O c st o in (RDoc r, st')
+  | OpSummary => let '(r, st') := format_summary O c st o in (RSum r, st')
+  | OpToc => let '(r, st') := format_toc O c st o in (RToc r, st')
+  end.
+
 (* ---- the tail of epytext.parse: after the token loop,
         try: raise next(e for e in errors if e.is_fatal())
         except StopIteration: pass
